@@ -636,6 +636,21 @@ MODEL_PIX_ABS, MODEL_PIX_SLOPE = 0.03, 0.5    # worst-pixel bound: 3 % + half th
 MODEL_COVERAGE_TOL = 1.0     # EVERY pixel of the region must be filled by the model
 
 
+def describes_image(p, iso):
+    """The isophote agrees with the true galaxy (centre, eps, PA, mean intensity) within the tolerances of the
+    recovery clause, max(small absolute tolerance, 5 x reported error) - whatever its stop code."""
+    def z(v):
+        return float(v) if v is not None and np.isfinite(v) else 0.0
+    truth = float(radial(p['law'], p['scale'])(iso.sma))
+    if not (np.isfinite(iso.intens) and truth > 0):
+        return False
+    e0 = max(p['eps'], 0.05)
+    return (math.hypot(iso.x0 - p['x0'], iso.y0 - p['y0']) <= max(0.25, 5 * math.hypot(z(iso.x0_err), z(iso.y0_err)))
+            and abs(iso.eps - p['eps']) <= max(0.03, 5 * z(iso.ellip_err))
+            and angdiff(iso.pa, p['pa']) <= max(0.02 / e0, 5 * z(iso.pa_err))
+            and abs(iso.intens - truth) / truth <= max(0.03, 5 * z(iso.int_err) / abs(iso.intens)))
+
+
 def model_residual(p, obs):
     """build_ellipse_model against the image on the pixels well inside the fitted region: elliptical radius
     between max(5 pixels, smallest fitted sma + 1) and 0.8 x min(largest fitted sma, 3 scale radii, distance
@@ -663,10 +678,16 @@ def model_residual(p, obs):
     rr = np.maximum(r, 1.0)
     slope = np.abs(np.log(f(rr * 1.01)) - np.log(f(rr))) / (0.01 * rr) / (1.0 - p['eps'])
     region &= slope <= 0.5
-    # ... and only pixels that no ellipse drawn from a NON-CONVERGED isophote can touch.  The fitter itself flags
-    # those (stop code 2: iteration limit, geometry = best so far; 1: too few points; 5: failed, geometry copied;
-    # 4 only when the geometry it copies is itself not a converged one); their geometry need not describe the
-    # image, so no model of the list can reproduce it there.  Isophotes extracted non-iteratively (stop code 4)
+    # ... and of small curvature there: bilinear interpolation between pixel centres misses a law f by about
+    # (1/8) |f''|/f per pixel^2; pixels where that exceeds 1 % across the minor axis are not resolved either
+    # (e.g. a Gaussian whose minor-axis sigma is ~2 pixels)
+    curv = np.abs(f(rr + 0.5) - 2.0 * f(rr) + f(np.maximum(rr - 0.5, 0.0))) / (0.25 * f(rr)) / (1.0 - p['eps']) ** 2
+    region &= curv / 8.0 <= 0.01
+    # ... and only pixels that no ellipse drawn from an isophote that does NOT DESCRIBE THE IMAGE can touch: one
+    # the fitter itself flags as not converged (stop code 2: iteration limit, geometry = best so far; 1: too few
+    # points; 5: failed, geometry copied; 4 only when the geometry it copies is itself not a converged one) AND
+    # whose centre / eps / PA / intensity are outside the recovery tolerances of the truth (a best-so-far isophote
+    # that agrees with the galaxy stays in).  No model of the list can reproduce the image there.  Isophotes extracted non-iteratively (stop code 4)
     # along a converged geometry are NOT left out: on an elliptical galaxy they must reproduce the image.  The
     # model between consecutive fitted sma is a cubic spline through the list, so a non-converged isophote j
     # influences the ellipses with sma in [sma_(j-2), sma_(j+2)], drawn with geometries between the true one and
@@ -683,7 +704,7 @@ def model_residual(p, obs):
     phi = np.linspace(0.0, 2 * math.pi, 180, endpoint=False)
     unsupported = np.zeros(r.shape, bool)
     for j, iso in enumerate(il):
-        if iso.sma <= 0 or trusted.get(id(iso), False):
+        if iso.sma <= 0 or trusted.get(id(iso), False) or describes_image(p, iso):
             continue
         lo_sma, hi_sma = il[max(0, j - 2)].sma, il[min(n - 1, j + 2)].sma
         band_lo, band_hi = lo_sma, hi_sma
